@@ -10,7 +10,9 @@ import (
 	"hash/fnv"
 	"math/rand"
 	"os"
+	"runtime"
 	"sort"
+	"strings"
 	"sync"
 	"syscall"
 )
@@ -262,4 +264,39 @@ func (rc *Rec) SkipCase(phase string, idx int64) bool {
 		return false
 	}
 	return idx != rc.Only || (rc.OnlyPhase != "" && phase != rc.OnlyPhase)
+}
+
+// PanicSig turns a recovered panic value into a short signature: the message
+// with numbers blanked plus the innermost github.com/google/wuffs frame.
+func PanicSig(rec interface{}) string {
+	msg := fmt.Sprint(rec)
+	out := make([]byte, 0, len(msg))
+	prevN := false
+	for i := 0; i < len(msg) && len(out) < 100; i++ {
+		c := msg[i]
+		if c >= '0' && c <= '9' {
+			if !prevN {
+				out = append(out, 'N')
+			}
+			prevN = true
+			continue
+		}
+		prevN = false
+		out = append(out, c)
+	}
+	frame := ""
+	pcs := make([]uintptr, 64)
+	n := runtime.Callers(2, pcs)
+	frames := runtime.CallersFrames(pcs[:n])
+	for {
+		f, more := frames.Next()
+		if strings.HasPrefix(f.Function, "github.com/google/wuffs/") {
+			frame = strings.TrimPrefix(f.Function, "github.com/google/wuffs/")
+			break
+		}
+		if !more {
+			break
+		}
+	}
+	return "panic:" + string(out) + "@" + frame
 }
